@@ -881,6 +881,7 @@ def mon_C16(ctx, k, sc, tr, stats):
         return
     mon_C04(ctx, k, sc, tr, stats, check_competency=True)
     mon_C16_oversuitable(ctx, k, sc, tr, stats)
+    mon_C16_pick(ctx, k, sc, tr, stats)
     # a landing disperser goes to at most one host, which must have a susceptible individual:
     # covered by C04.establish_reclassifies per host; here: pests split among hosts
     for prev, step, tag, idx, st in iter_pairs(sc, tr):
@@ -922,6 +923,42 @@ def mon_C16_oversuitable(ctx, k, sc, tr, stats):
                 if i in landed:
                     ctx.violation("C16.oversuitable_accepted", "step %d cell %d: a disperser landed and the dispersal action completed although the combined suitability of the cell is %s > 1 (population %d)" % (step, i, total, sc.totpop[i]), sc.text)
                     return
+
+
+def mon_C16_pick(ctx, k, sc, tr, stats):
+    """A landing disperser is handed to a host by weight = the host's suitability in the cell.
+    Susceptibles only decrease during a dispersal action, so a host that had NO susceptible in
+    the cell before the action has weight 0 for every pick of the action; it must not be picked
+    while another host still has susceptibles (and positive susceptibility and weather) there
+    after the action - that host had a positive weight at every pick."""
+    if sc.nhosts < 2:
+        return
+    for prev, step, tag, idx, st in iter_pairs(sc, tr):
+        if tag != "spread":
+            continue
+        weather = sc.weathers[step % len(sc.weathers)] if sc.use["weather"] and sc.weathers else None
+        cur = None
+        for e in tr["tapes"].get(step, []):
+            if e.startswith("kernel:"):
+                _, r, c, tr_, tc = e.split(":")
+                tr_, tc = int(tr_), int(tc)
+                cur = tr_ * sc.cols + tc if (0 <= tr_ < sc.rows and 0 <= tc < sc.cols) else None
+            elif e.startswith("soil_from:"):
+                p_ = e.split(":")
+                cur = int(p_[1]) * sc.cols + int(p_[2])
+            elif e.startswith("pick:") and cur is not None:
+                h = int(e.split(":")[1])
+                stats["picks"] = stats.get("picks", 0) + 1
+                if not (0 <= h < sc.nhosts):
+                    ctx.violation("C16.pick.no_such_host", "step %d: host index %d picked, %d hosts" % (step, h, sc.nhosts), sc.text)
+                    return
+                if weather is not None and weather[cur] <= 0:
+                    continue
+                if prev["hosts"][h][cur]["S"] == 0:
+                    others = [g for g in range(sc.nhosts) if g != h and st["hosts"][g][cur]["S"] > 0 and (sc.pht[g][0] if g in sc.pht else 1) > 0]
+                    if others:
+                        ctx.violation("C16.pick.zero_weight_host", "step %d cell %d: host %d was picked for a landing disperser although it had no susceptible there (weight 0) while host(s) %s had" % (step, cur, h, others), sc.text)
+                        return
 
 
 MONITORS.update({"C04": mon_C04, "C05": mon_C05, "C09": mon_C09, "C10": mon_C10, "C11": mon_C11, "C12": mon_C12, "C16": mon_C16, "C17": mon_C17})
